@@ -65,6 +65,9 @@ const (
 type c09Shaper struct {
 	handle bool
 	bw     lnwire.MilliSatoshi
+	// passThrough makes the shaper answer with the link bandwidth it is
+	// handed (what a shaper does for an HTLC it has no extra limit for).
+	passThrough bool
 }
 
 func (s *c09Shaper) ShouldHandleTraffic(lnwire.ShortChannelID,
@@ -73,9 +76,13 @@ func (s *c09Shaper) ShouldHandleTraffic(lnwire.ShortChannelID,
 	return s.handle, nil
 }
 
-func (s *c09Shaper) PaymentBandwidth(_, _, _ fn.Option[tlv.Blob], _,
-	_ lnwire.MilliSatoshi, _ lnwallet.AuxHtlcView,
+func (s *c09Shaper) PaymentBandwidth(_, _, _ fn.Option[tlv.Blob],
+	linkBandwidth, _ lnwire.MilliSatoshi, _ lnwallet.AuxHtlcView,
 	_ route.Vertex) (lnwire.MilliSatoshi, error) {
+
+	if s.passThrough {
+		return linkBandwidth, nil
+	}
 
 	return s.bw, nil
 }
@@ -127,9 +134,11 @@ func newC09Fixture(t *testing.T) *c09Fixture {
 
 // c09Case is one fully generated input.
 type c09Case struct {
-	Mode    string `json:"mode"`
-	Link    int    `json:"link"`
-	Aux     int    `json:"aux"` // 0 none, 1 shaper handles, 2 shaper declines
+	Mode string `json:"mode"`
+	Link int    `json:"link"`
+	// 0 none, 1 shaper handles (own number), 2 shaper declines, 3 shaper
+	// handles and answers with the link bandwidth it is given.
+	Aux     int    `json:"aux"`
 	AuxBW   uint64 `json:"aux_bw"`
 	BW      uint64 `json:"bandwidth"` // effective spendable bandwidth
 	Min     uint64 `json:"min_htlc"`
@@ -394,7 +403,11 @@ func c09DrawBandwidth(t *rapid.T, fx *c09Fixture, c *c09Case) {
 	switch p := c09Pct(t, "aux_k"); {
 	case p < 60:
 		c.Aux = 0
-	case p < 90:
+	case p < 70:
+		// The shaper takes the channel but has no limit of its own:
+		// the real bandwidth applies.
+		c.Aux = 3
+	case p < 92:
 		c.Aux = 1
 		switch q := c09Pct(t, "aux_bw_k"); {
 		case q < 8:
@@ -791,8 +804,9 @@ func c09Apply(fx *c09Fixture, c *c09Case) *channelLink {
 		l.cfg.AuxTrafficShaper = fn.None[AuxTrafficShaper]()
 	default:
 		l.cfg.AuxTrafficShaper = fn.Some[AuxTrafficShaper](&c09Shaper{
-			handle: c.Aux == 1,
-			bw:     lnwire.MilliSatoshi(c.AuxBW),
+			handle:      c.Aux == 1 || c.Aux == 3,
+			bw:          lnwire.MilliSatoshi(c.AuxBW),
+			passThrough: c.Aux == 3,
 		})
 	}
 
